@@ -1,29 +1,145 @@
 package main
 
-// Concurrency model (C15): cooperative scheduler over coroutines, sync stubs,
-// vector-clock happens-before race detection, write tracking.
-// (first version: sequential placeholders; see sched.go for the scheduler)
+// Concurrency model (C15, C19): goroutines, sync stubs, happens-before race detection.
+//
+// Default mode ("eager"): a `go` statement runs the new goroutine to completion at the spawn
+// point — one legal schedule. Full schedule exploration is in sched.go (enabled by the harness
+// through verifSchedAll).
 
 import (
+	"fmt"
+	"go/token"
+
 	"golang.org/x/tools/go/ssa"
 )
 
 type hbState struct{}
 
-type scheduler struct {
-	inCritical bool
+type syncObj struct {
+	counter int64 // WaitGroup counter
+	locked  bool  // Mutex
+	owner   int
 }
 
-func (s *scheduler) killAll()       {}
-func (s *scheduler) finish(x *Exec) {}
+func (x *Exec) syncOf(p *value) *syncObj {
+	if x.syncs == nil {
+		x.syncs = map[*value]*syncObj{}
+	}
+	s := x.syncs[p]
+	if s == nil {
+		s = &syncObj{}
+		x.syncs[p] = s
+	}
+	return s
+}
 
-func (x *Exec) noteRead(addr *value)   {}
-func (x *Exec) noteWrite(addr *value)  {}
-func (x *Exec) noteReadObj(m *mapVal)  {}
-func (x *Exec) noteWriteObj(m *mapVal) {}
+func (x *Exec) noteRead(addr *value) {
+	if x.sched != nil {
+		x.sched.access(x, addr, nil, false)
+	}
+}
+func (x *Exec) noteWrite(addr *value) {
+	if x.wtrack != nil {
+		x.wtrack[addr] = true
+	}
+	if x.sched != nil {
+		x.sched.access(x, addr, nil, true)
+	}
+}
+func (x *Exec) noteReadObj(m *mapVal) {
+	if x.sched != nil {
+		x.sched.access(x, nil, m, false)
+	}
+}
+func (x *Exec) noteWriteObj(m *mapVal) {
+	if x.wtrackM != nil {
+		x.wtrackM[m] = true
+	}
+	if x.sched != nil {
+		x.sched.access(x, nil, m, true)
+	}
+}
 
 func (x *Exec) spawn(fr *frame, instr *ssa.Go, fn value, args []value) {
-	panic(unsupported{"go statement (scheduler not enabled)"})
+	if x.sched != nil {
+		x.sched.spawn(x, fr, instr, fn, args)
+		return
+	}
+	// eager: run to completion now
+	x.call(fr, instr.Pos(), fn, args)
 }
 
-func registerSyncStubs(reg func(string, intrinsic)) {}
+func registerSyncStubs(reg func(string, intrinsic)) {
+	reg("(*sync.WaitGroup).Add", func(x *Exec, fr *frame, args []value) value {
+		s := x.syncOf(args[0].(*value))
+		d := x.concInt(args[1], "WaitGroup.Add delta")
+		if x.sched != nil {
+			x.sched.syncPoint(x, args[0].(*value), "wg.Add")
+		}
+		s.counter += d
+		if s.counter < 0 {
+			panic(targetPanic{v: iface{t: x.rtErrType, v: strVal{s: "sync: negative WaitGroup counter"}}, msg: "sync: negative WaitGroup counter"})
+		}
+		if x.sched != nil {
+			x.sched.release(x, args[0].(*value))
+		}
+		return nil
+	})
+	reg("(*sync.WaitGroup).Done", func(x *Exec, fr *frame, args []value) value {
+		s := x.syncOf(args[0].(*value))
+		if x.sched != nil {
+			x.sched.syncPoint(x, args[0].(*value), "wg.Done")
+		}
+		s.counter--
+		if s.counter < 0 {
+			panic(targetPanic{v: iface{t: x.rtErrType, v: strVal{s: "sync: negative WaitGroup counter"}}, msg: "sync: negative WaitGroup counter"})
+		}
+		if x.sched != nil {
+			x.sched.release(x, args[0].(*value))
+		}
+		return nil
+	})
+	reg("(*sync.WaitGroup).Wait", func(x *Exec, fr *frame, args []value) value {
+		p := args[0].(*value)
+		s := x.syncOf(p)
+		if x.sched != nil {
+			x.sched.waitUntil(x, func() bool { return s.counter == 0 }, "wg.Wait")
+			x.sched.acquire(x, p)
+			return nil
+		}
+		if s.counter != 0 {
+			panic(unsupported{fmt.Sprintf("WaitGroup.Wait with counter %d in eager goroutine mode (deadlock)", s.counter)})
+		}
+		return nil
+	})
+	reg("(*sync.Mutex).Lock", func(x *Exec, fr *frame, args []value) value {
+		p := args[0].(*value)
+		s := x.syncOf(p)
+		if x.sched != nil {
+			x.sched.waitUntil(x, func() bool { return !s.locked }, "mu.Lock")
+			s.locked = true
+			x.sched.acquire(x, p)
+			return nil
+		}
+		if s.locked {
+			panic(unsupported{"Mutex.Lock on a locked mutex in eager goroutine mode (deadlock)"})
+		}
+		s.locked = true
+		return nil
+	})
+	reg("(*sync.Mutex).Unlock", func(x *Exec, fr *frame, args []value) value {
+		p := args[0].(*value)
+		s := x.syncOf(p)
+		if !s.locked {
+			panic(targetPanic{v: iface{t: x.rtErrType, v: strVal{s: "sync: unlock of unlocked mutex"}}, msg: "sync: unlock of unlocked mutex"})
+		}
+		if x.sched != nil {
+			x.sched.syncPoint(x, p, "mu.Unlock")
+			x.sched.release(x, p)
+		}
+		s.locked = false
+		return nil
+	})
+}
+
+var _ = token.NoPos
